@@ -799,7 +799,10 @@ def _digest(s, st0, a, st):
                     if o2 == oid or o2 not in hb: continue
                     if not lifo and hb[o2][1] < hb[oid][0]:
                         vio('C08', f'get() offered {oid} for recycling although {o2} has been idle longer (its return had completed before that of {oid} began)'); break
-                    if lifo and hb[o2][0] > hb[oid][1]:
+                    # Lifo: the newer object must also have been in the queue when this get() popped - its return must have completed
+                    # before the get() began (the pop is not an event of its own; a return that completes between the pop and the
+                    # recycle call, at the schedule point after the pop, is not something the get() could have seen)
+                    if lifo and hb[o2][0] > hb[oid][1] and cur is not None and hb[o2][1] < cur.get('began', 0):
                         vio('C08', f'get() offered {oid} for recycling although {o2} was returned more recently (its return began after that of {oid} had completed)'); break
             idleq.remove(oid); left_queue(oid)
     for e in ev:
